@@ -112,6 +112,9 @@ func checkReader(p *Prog, r *Report, rule string, sp layoutSpec) (*ssa.Function,
 		if sp.noTrail {
 			want = append(want, "empty=true")
 		}
+		if !sp.noTrail && len(got) == len(want)+1 && got[len(got)-1] == "empty=true" {
+			got = got[:len(got)-1] // a decoder may also insist on having consumed everything
+		}
 		if len(got) != len(want) {
 			probs = append(probs, fmt.Sprintf("%d reads on the main reader, required %d", len(got), len(want)))
 		} else {
@@ -916,6 +919,82 @@ func c04BatchRequest(p *Prog, r *Report, R4 string) {
 		lengthPrechecks(p, r, R4, name, fn, 1+2+1+ne1, -1) // one type-1 request, the shortest element
 	}
 	s := p.NewSym(fn)
+	// whatever the decoder accepts must re-encode to something it accepts: a
+	// length pre-check of more than one byte refuses the canonical encoding of
+	// the empty list (the single byte 00), so the empty list may not be
+	// accepted from any other encoding either (declared length 0 in a longer
+	// buffer, a non-minimal varint 0): the declared length must be non-zero on
+	// every accepting path
+	{
+		maxK := int64(0)
+		ff := p.Facts(fn)
+		edgeOK := acceptingEdges(ff, fn)
+		for _, b := range fn.Blocks {
+			ifi, ok := b.Instrs[len(b.Instrs)-1].(*ssa.If)
+			if !ok || len(b.Succs) != 2 || ff.dead[b] {
+				continue
+			}
+			ok0, ok1 := edgeOK(b, b.Succs[0]), edgeOK(b, b.Succs[1])
+			if ok0 == ok1 {
+				continue
+			}
+			a := normCond(ifi.Cond, !ok0)
+			bo, isBo := a.V.(*ssa.BinOp)
+			if a.Kind != Truth || !isBo {
+				continue
+			}
+			if _, isLen := lenOfParam(bo.X); !isLen {
+				continue
+			}
+			k, okK := constIntOf(bo.Y)
+			if !okK {
+				continue
+			}
+			// rejected when len < k (or len <= k-1)
+			switch {
+			case bo.Op == token.LSS && a.Pol, bo.Op == token.GEQ && !a.Pol:
+			case bo.Op == token.LEQ && a.Pol, bo.Op == token.GTR && !a.Pol:
+				k++
+			default:
+				continue
+			}
+			if k > maxK {
+				maxK = k
+			}
+		}
+		nonZero, nS := true, 0
+		for _, rp := range s.ff.RetPoints(verdictIndex(fn)) {
+			if rp.Outcome == Fails {
+				continue
+			}
+			nS++
+			found := false
+			for _, a := range rp.Facts {
+				bo, ok := a.V.(*ssa.BinOp)
+				if a.Kind != Truth || !ok {
+					continue
+				}
+				xt, yt := s.Of(bo.X).String(), s.Of(bo.Y).String()
+				isL := func(t string) bool {
+					return strings.HasPrefix(t, "extract<0>(call<quicwire.ConsumeVarint>(") || strings.HasPrefix(t, "conv<int>(extract<0>(call<quicwire.ConsumeVarint>(")
+				}
+				switch {
+				case isL(xt) && yt == "const:0":
+					found = found || (bo.Op == token.NEQ && a.Pol) || (bo.Op == token.EQL && !a.Pol) || (bo.Op == token.GTR && a.Pol) || (bo.Op == token.LEQ && !a.Pol)
+				case isL(yt) && xt == "const:0":
+					found = found || (bo.Op == token.NEQ && a.Pol) || (bo.Op == token.EQL && !a.Pol) || (bo.Op == token.LSS && a.Pol) || (bo.Op == token.GEQ && !a.Pol)
+				case isL(xt) && yt == "const:1":
+					found = found || (bo.Op == token.GEQ && a.Pol) || (bo.Op == token.LSS && !a.Pol)
+				}
+			}
+			if !found {
+				nonZero = false
+			}
+		}
+		r.Check(maxK <= 1 || (nonZero && nS > 0), R4, name+": what the decoder accepts re-encodes to something it accepts", p.Pos(fn.Pos()),
+			fmt.Sprintf("length pre-check %d; declared list length non-zero on every accepting path: %v", maxK, nonZero),
+			fmt.Sprintf("the decoder refuses inputs shorter than %d bytes but accepts a declared list length of 0 (e.g. 00 00 00 00): it decodes them to the empty list, whose canonical encoding - the single byte 00 - it then refuses", maxK))
+	}
 	// tag -> constructed type
 	tagOf := map[string]string{}
 	var unm []*ssa.Call
